@@ -392,11 +392,12 @@ def model_op(call):
     if name == "insert_one":
         return [3, 0]
     if name == "insert_many":
-        if exp == "bulk-rejected":
-            return [14, [0] * len(spec[2]), []]
+        if exp == "bulk-rejected":      # unknown bucket: the first of spec[3] rows is rejected
+            return [14, [0] * len(spec[2]), [], spec[3]]
         return [4, [0] * len(spec[2]), [0] * spec[3]]
-    if name == "insert_many_bad":
-        return [14, [0] * len(spec[2]), [0] * (spec[3] if exp == "bulk-failed" else 0)]
+    if name == "insert_many_bad":       # spec[3] good rows then one that overflows
+        done = spec[3] if exp == "bulk-failed" else 0
+        return [14, [0] * len(spec[2]), [0] * done, spec[3] + 1 - done]
     if name == "replace_last":
         return [5, 0]
     if name == "replace":
